@@ -37,6 +37,7 @@ func init() {
 		opt.Hooks = 1.0
 		opt.Explicit = 0.3
 		opt.HookReuse = 0.2
+		opt.CrossConv = 0.3
 		if err := c10AliasedHook(r); err != nil {
 			return err
 		}
@@ -49,6 +50,7 @@ func init() {
 		opt.Hooks = 0
 		opt.Explicit = 0.1
 		opt.OnlyClasses = []string{"slice", "identical", "getter", "convertible", "assignable"}
+		opt.Clones = 0.15
 		return semCheck(r, "C16", tier, seed, opt, []string{"nil-source-slice", "slice-elements-differ", "slice-shares-backing"},
 			"struct pairs biased to slice fields (identical basic/named/struct/pointer/interface elements, assignable-not-identical, convertible under :typecast, slices of slices and maps, getters returning slices) executed with nil, empty and non-empty source slices; checks: destination slice has the same length and element-wise equal (converted) elements, a different backing array than the source, and a nil source leaves the destination field as it was or nil; non-trivial = at least one slice block executed; distinct by file contents")
 	}
@@ -106,7 +108,7 @@ func semPost(cr *caseRun) {
 		return
 	}
 	_ = os.WriteFile(filepath.Join(cr.Dir, "pk", "sem_helpers_test.go"), []byte(sem.HelpersSrc), 0o644)
-	_ = os.WriteFile(filepath.Join(cr.Dir, "pk", "sem_driver_test.go"), []byte(sem.Driver(fs, srcTypes)), 0o644)
+	_ = os.WriteFile(filepath.Join(cr.Dir, "pk", "sem_driver_test.go"), []byte(sem.Driver(fs, srcTypes, cr.C.DotImport)), 0o644)
 	cmd := exec.Command("go", "test", "-v", "-vet=off", "-count=1", "-run", "TestSem", "./pk")
 	cmd.Dir = cr.Dir
 	cmd.Env = tool.BaseEnv()
@@ -131,7 +133,7 @@ func semPost(cr *caseRun) {
 			cr.SemNote = "driver-failed: " + trunc(text, 600)
 		}
 	}
-	cr.C.Files["pk/sem_driver_test.go"] = sem.Driver(fs, srcTypes)
+	cr.C.Files["pk/sem_driver_test.go"] = sem.Driver(fs, srcTypes, cr.C.DotImport)
 	cr.C.Files["pk/sem_helpers_test.go"] = sem.HelpersSrc
 }
 
@@ -146,7 +148,7 @@ func semCheck(r *report.Report, prop, tier string, seed int64, opt gen.Options, 
 		func(cr *caseRun) [][2]string {
 			var vs [][2]string
 			if prop == "C10" && cr.C.Features["misfit-hook-reused"] > 0 && cr.Impl.Status == 0 {
-				vs = append(vs, [2]string{"hook-that-does-not-fit-the-method-accepted", "a hook declared for other operand types was named by :postprocess and the tool exited 0"})
+				vs = append(vs, [2]string{"hook-that-does-not-fit-the-method-accepted", "a hook that does not fit the method (declared for other operand types, or returning a concrete type instead of error) was accepted: the tool exited 0"})
 			}
 			if cr.SemNote != "" {
 				r.Count("sem-note:" + strings.SplitN(cr.SemNote, ":", 2)[0])
